@@ -144,35 +144,19 @@ def to_text(S):
 
 def dec_value(cells):
     """numeric value of a digit string -> int / SymInt (no validation)"""
-    v = 0
-    sym = False
-    for c in cells:
-        if isinstance(c, int):
-            d = c - 48
-        else:
-            d = z3.BV2Int(c) - 48
-            sym = True
-        v = v * 10 + d
-    if sym:
-        from wsx.core import mkint
-        return mkint(v)
-    return v
+    from wsx.data import digits_value
+    return digits_value([(c - 48) for c in cells], 10)
 
 
 def hex_value(cells):
-    v = 0
-    sym = False
+    from wsx.data import digits_value
+    digs = []
     for c in cells:
         if isinstance(c, int):
-            d = int(chr(c), 16)
+            digs.append(int(chr(c), 16))
         else:
-            sym = True
-            d = z3.If(z3.ULE(c, 57), z3.BV2Int(c) - 48, z3.If(z3.ULE(c, 70), z3.BV2Int(c) - 55, z3.BV2Int(c) - 87))
-        v = v * 16 + d
-    if sym:
-        from wsx.core import mkint
-        return mkint(v)
-    return v
+            digs.append(z3.If(z3.ULE(c, 57), c - 48, z3.If(z3.ULE(c, 70), c - 55, c - 87)))
+    return digits_value(digs, 16)
 
 
 # ------------------------------------------------------------------ field lines
@@ -549,6 +533,10 @@ def _parse_request_line(line, cfg):
             return "any"
     if bool(_b(any_of(tc, lambda x: c_rng(x, 0x80, 0xFF)))):
         return "any"
+    # VCHARs that are not RFC 3986 characters, and square brackets (legal only inside an IP-literal,
+    # whose validation is the URI parser's business): a server may refuse the target or pass it on
+    if bool(_b(any_of(tc, lambda x: c_in(x, tuple(b'"<>\\^`{|}[]'))))):
+        return "any"
     version = None
     if len(parts) == 3:
         v = cells_of(parts[2])
@@ -670,15 +658,21 @@ def _parse_chunked(S, o, cfg):
                 body = SymBytes(body_cells).simplify() if body_cells else b""
                 return ("ok", body, o, o - start)
             first = cells_of(tl)[0]
+            bad = False
             if bool(_b(c_in(first, (32, 9)))):
                 if cfg.trailer_fold == "either":
                     return ("any",)
-                return ("err", (400,))
-            if has_crlf_byte(tl):
-                return ("err", (400,))
-            ok, _, _ = parse_field_line(tl)
-            if not ok:
-                return ("err", (400,))
+                bad = True
+            elif has_crlf_byte(tl):
+                bad = True
+            else:
+                ok, _, _ = parse_field_line(tl)
+                bad = not ok
+            if bad:
+                # a server may refuse as soon as it sees the line or once the trailer section is complete
+                if find(S, b"\r\n\r\n", o - 2) >= 0:
+                    return ("err", (400,))
+                return ("any",)
 
 
 def _chunk_limit_or(cfg, framing, data, otherwise, err=False):
